@@ -139,6 +139,10 @@ func init() {
 		fr.i.eng.Tag(a[0].(string))
 		return nil
 	})
+	reg(N+"Hint", func(fr *frame, a []value) value {
+		fr.i.eng.Hint(fr.i.termOfBool(a[0]))
+		return nil
+	})
 	reg(N+"Note", func(fr *frame, a []value) value { return nil })
 	reg(N+"And", func(fr *frame, a []value) value {
 		c := fr.ctx()
